@@ -113,11 +113,8 @@ func TestVerifC03(t *testing.T) {
 	multi1, eps1, h1 := load(fx)
 	multi3, eps3, h3 := load(fxs...)
 	ep := eps1[0]
-	defer func() {
-		for _, e := range append(eps1, eps3...) {
-			e.Close()
-		}
-	}()
+	// (epochs are not closed: the multi-epoch signature search leaves jobs running after the first answer)
+	_ = eps3
 
 	// ---------------- (1) every absent slot of the epoch
 	base := m.Epoch * cargen.SlotsPerEpoch
